@@ -51,6 +51,18 @@ def variant_middle(sp):
     return v
 
 
+def variant_more_hosts(sp):
+    """same name, names and address bounds, but the smallest subnet has one host more (copy of its first host)"""
+    v = copy.deepcopy(sp)
+    sizes = list(v["subnets"])
+    s = min(range(len(sizes)), key=lambda i: sizes[i])
+    assert sizes[s] < max(sizes)
+    v["hosts"][(s + 1, sizes[s])] = copy.deepcopy(v["hosts"][(s + 1, 0)])
+    sizes[s] += 1
+    v["subnets"] = sizes
+    return v
+
+
 def variant_host_order(sp):
     """the same network with the hosts listed in another order (another address -> row mapping)"""
     v = copy.deepcopy(sp)
@@ -96,6 +108,8 @@ def pairs(tier):
     ps.append(("shared_scenario_object_param_actions", [S["os_mix"], S["os_mix"]]))
     # one environment stays idle while the other makes a long run of calls
     ps.append(("long_one_sided_history", [S["twins"], S["twins"]]))
+    # same layout (bounds, names), another number of hosts in one subnet
+    ps.append(("same_layout_other_subnet_sizes", [S["twins"], variant_more_hosts(S["twins"])]))
     # two large networks (state tensors of more than 1000 cells) that differ only in the middle rows, fully observable
     ps.append(("large_same_layout_middle_rows_differ", [S["big68"], variant_middle(S["big68"])]))
     if tier == "thorough":
